@@ -19,7 +19,25 @@ func appendCall(in Val, f func(dst, src []byte) []byte) Val {
 	dst := make([]byte, len(dst0), len(dst0)+len(src0)*4+8)
 	copy(dst, dst0)
 	src := slices.Clone(src0)
-	out := f(dst, src)
+	var out []byte
+	if panicked := func() (p bool) {
+		defer func() {
+			if recover() != nil {
+				p = true
+			}
+		}()
+		out = f(dst, src)
+		return false
+	}(); panicked {
+		// an input that is refused must be refused every time (a cache that remembers
+		// the failed lookup answers the second call)
+		for i := 0; i < 2; i++ {
+			if _, ok := try1(func() []byte { return f(slices.Clone(dst0), slices.Clone(src0)) }); ok {
+				return L(I(3), S("the call panics the first time and returns normally when repeated"))
+			}
+		}
+		return vPanic
+	}
 	if !bytes.Equal(src, src0) {
 		return L(I(3), S("src modified"))
 	}
